@@ -48,6 +48,8 @@ type Type struct {
 	// Decorations of a KNamed struct
 	EqualMethod   string // "", "derived" (idiom: implemented by the derived function), "custom"
 	CompareMethod string // "", "derived", "custom"
+	// Stringer: the named type declares String() string (fmt's %v, %s and %q call it, %#v does not)
+	Stringer bool
 }
 
 // Basics is the list of basic leaf types.
